@@ -94,6 +94,7 @@ class Alphabet:
         self.ops['dSg'] = ['op dmg sj garbage']
         self.ops['dSm'] = ['op dmg sj missing']
         self.ops['dJ'] = ['op dmg junk']
+        self.ops['dJh'] = ['op dmg junkh']
 
     def seq(self, labels):
         out = []
